@@ -124,4 +124,85 @@ PROPS = {
         assumptions=["instances interact only through the shared-token counter and downward cancellation",
                      "Go channel, select and errgroup semantics as modelled"],
     ),
+    "C01": dict(
+        families=[dict(name="tree", args=["-specs", "3,5,11,14"])],
+        level_text="Theorems C01_roundtrip (commit then checkout into an absent slot reproduces the tracked tree, links "
+                   "followed, for both strategies on either side), C01_commit_ok, C01_commit_keeps_logical(_links), "
+                   "C01_invariants_preserved/_initial, C01_nonutf8_fails over the model of commit.go/checkout.go with the "
+                   "real JSON manifest codec (round trip proved). Tied to the code by committing generated trees (hostile "
+                   "entry names, duplicate contents, empty files/dirs, 64 KiB sizes, invalid UTF-8) as file / directory / "
+                   "non-recursive artifacts and checking out into the same project, the moved project and a clone, under "
+                   "both strategies, four cache placements (incl. another filesystem) and two invocation directories.",
+        level_note="Premises found necessary by machine-checked counterexamples: no file of the tree has bytes that decode "
+                   "as a directory manifest with flagged entries (benign/tame), no dangling directory references in the "
+                   "cache (man_present; holds from the empty cache on). Project relocation and argument re-basing are "
+                   "exercised by the correspondence runs, not modelled (the model has no absolute paths).",
+        assumptions=["H collision-free on the strings involved, digests >= 3 chars of valid UTF-8 text",
+                     "entry names are single path components; no symlinked directories on artifact paths"],
+    ),
+    "C02": dict(
+        families=[dict(name="tree", args=["-specs", "1,12"]), dict(name="hist", args=["-specs", "1,12"]),
+                  dict(name="pipe", args=["-specs", "1,12"])],
+        level_text="Theorems C02_history / C02_step / C02_commit / C02_initial: for every history of commands of the "
+                   "whole-program model from any state with a well-formed cache (in particular the empty one), every "
+                   "object is keyed by the hash of its bytes with mode 0444 and no object ever changes or disappears. "
+                   "Tied to the code by re-hashing, inside Coq with the Gallina BLAKE3, every new or changed object of "
+                   "the observed cache after every command of tree, edit-history and pipeline scenarios (both strategies, "
+                   "rename-able and cross-device caches), and checking monotonicity against the previous observation.",
+        level_note="Premise: H collision-free. The permission fix-up after rclone transfers belongs to C11. User edits in "
+                   "the scenarios never write through cache links.",
+        assumptions=["H collision-free on the strings involved", "users do not write through links into the cache"],
+    ),
+    "C07": dict(
+        families=[dict(name="effects", args=["-specs", "2,8,9,10"]), dict(name="pipe", args=["-specs", "2,8,9"])],
+        level_text="Theorems C07_readonly, C07_no_stage_write, C07_no_cache_write, C07_failed_step_unchanged, "
+                   "C07_run_only_commands_write, C07_run_without_effects, C07_inputs_untouched, C07_skip_outputs_untouched "
+                   "over the whole-program model. proof, partial: absence of other system calls is an audit of runs. Tied "
+                   "to the code by full project snapshots (workspace, cache, stage files, index) before/after every "
+                   "command of pipeline histories and of stages with plain file inputs, directory inputs and skip-cache "
+                   "outputs.",
+        level_note="Known finding D5: directory inputs / skip-cache directories are committed into the cache (the theorem "
+                   "is stated for regular-file entries; the directory case is refuted by a witness). frame_ok: the "
+                   "artifacts of the index do not overlap the input's path.",
+        assumptions=["stage commands in the correspondence runs write only their own outputs"],
+    ),
+    "C09": dict(
+        families=[dict(name="pipe", args=["-specs", "19,22,18"])],
+        level_text="Theorems C09_executed_or_unchanged (after a successful recursive run every visited stage with a command "
+                   "executed after all executed upstream stages, or its definition, plain inputs, owned inputs and outputs "
+                   "are as committed, in the FINAL workspace), C09_rerun_quiet, C09_rerun_sources over the model of "
+                   "Index.Run with the repaired staleness rules, for every framed stage-command semantics. Tied to the "
+                   "code by histories over {edit source, edit definition, damage/delete output, run [targets] [-s], "
+                   "commit} on generated DAGs with real shell commands; after each recursive run the outputs are "
+                   "recomputed from the sources in Coq.",
+        level_note="Known finding D19: downstream of a stage without inputs everything re-runs on every run (the last "
+                   "sentence of the property is false there; exact characterisation proved).",
+        assumptions=["stage commands are deterministic and write only their own outputs (exec_framed)",
+                     "outputs of different stages and plain inputs do not overlap (idx_wf; C10)"],
+    ),
+    "C15": dict(
+        families=[dict(name="idem", args=["-specs", "2,16"]), dict(name="tree", args=["-specs", "2,16"])],
+        level_text="Theorems C15_commit_repeat (a repeated commit returns exactly the same node, cache and record), "
+                   "C15_checkout_repeat, C15_mixed_logical, C15_mixed_checkout over the model of commit/checkout. Tied to "
+                   "the code by all sequences over {commit, commit --copy, checkout, checkout --copy} of length <= 2 "
+                   "(length 3 sampled; thorough: all of length <= 4) after an initial commit on file / directory / "
+                   "pipeline fixtures incl. stage subsets: a repeated command must leave the whole project physically "
+                   "identical (stage records included), a different one the cache, stage records and logical workspace; "
+                   "`dud init` re-run from the root and a sub-directory must leave index, config and cache untouched.",
+        level_note="`dud init` and byte-identity of stage files (yaml.v2) are observed, not modelled.",
+        assumptions=["H collision-free; cache entries sorted (harness canonical form)"],
+    ),
+    "C16": dict(
+        families=[dict(name="hist", args=["-specs", "7"]), dict(name="tree", args=["-specs", "7"])],
+        level_text="Theorems C16_function (the recorded checksum equals merkle(path, norec, logical content), a pure function "
+                   "that mentions neither strategy nor cache nor old manifest), C16_skip, C16_injective, "
+                   "C16_listing_order, C16_dedup. Tied to the code by recomputing, inside Coq with the Gallina BLAKE3 "
+                   "and the JSON encoder model, the Merkle checksum of every committed artifact from the observed "
+                   "workspace after every commit of tree scenarios and of edit histories (add, delete, modify, rename, "
+                   "file<->directory swap, link->copy) with recommits over old manifests, both strategies, four cache "
+                   "placements.",
+        level_note="Premises found necessary by machine-checked counterexamples: links resolve; no file's bytes decode as "
+                   "a directory manifest with flagged/directory entries (ctree). Pool sizes: see C13.",
+        assumptions=["H collision-free on the strings involved"],
+    ),
 }
